@@ -635,9 +635,29 @@ def _plan_restart_dict(w: World, op, si, mt, rt) -> Plan:
         old_groups = _partition(mt)
         w.unbind_slot(si)
         w.slots[si].real = None
-        import copy
+        def flat(items):
+            # iterative fingerprint of the nested structure (chains may be hundreds of
+            # levels deep: no recursion, no deepcopy)
+            out = []
+            stack = [(0, items)]
+            while stack:
+                depth, lst = stack.pop()
+                if not isinstance(lst, list):
+                    out.append((depth, "not-a-list", repr(lst)))
+                    continue
+                out.append((depth, "list", len(lst)))
+                for it in reversed(lst):
+                    if isinstance(it, dict):
+                        out.append((depth, "dict", tuple(sorted(
+                            (k, repr(v)) for k, v in it.items() if k != "children")),
+                            "children" in it))
+                        if "children" in it:
+                            stack.append((depth + 1, it["children"]))
+                    else:
+                        out.append((depth, "other", repr(it)))
+            return out
 
-        pristine = copy.deepcopy(obj)
+        pristine = flat(obj)
         try:
             if use_mapper:
                 loaded = w.nt.Tree.from_dict(obj, mapper=_interning_deser(w, {}))
@@ -647,7 +667,7 @@ def _plan_restart_dict(w: World, op, si, mt, rt) -> Plan:
             fail("from_dict-raised", f"from_dict() raised {type(e).__name__}: {e}")
         # the structure belongs to the caller (who may dump it or build from it again);
         # the simulator's mapper does not touch it, so any change is from_dict()'s
-        if obj != pristine:
+        if flat(obj) != pristine:
             fail("input-changed", "from_dict() modified the structure it was given "
                                   "(a second build from it would differ)")
         _adopt_loaded(w, si, loaded, mt, op, "C14", trigger, old_groups, plain_result=True)
